@@ -17,6 +17,7 @@
 (*  "mirror"  pos, mir, a, b            mir = Mirror(pos), a = -b          *)
 (*  "attack"  kind, sq, occ, att        att = SliderAttacks(kind, sq, occ) *)
 (*  "leaper"  kind, sq, att             knight / king tables               *)
+(*  "attackmap" b, white, att           whole attack map of a crowded board *)
 (*  "board"   obs, sum                  transient board: C12 invariants    *)
 (*  "matescore" pos, kind, scores, mm   mate / stalemate scores by depth   *)
 (*  "score"   pos, hm, scores, static, mm   evaluate::score composition   *)
@@ -129,6 +130,16 @@ CheckLeaper(r) ==
   LET want == IF r.kind = "N" THEN KnightT[r.sq] ELSE KingT[r.sq] IN
   SeqSet(r.att) = want \/ Bad("leaper attack set differs", [got |-> SeqSet(r.att), want |-> want])
 
+\* the whole attack map of one colour on a crowded board (several leapers and sliders among their own men)
+\* (whether a square held by the attacker's own men counts as attacked differs between the code's piece
+\* generators and is immaterial to every caller: compared on all other squares, as in the B1 replay)
+CheckAttackMap(r) ==
+  LET c == IF r.white THEN W ELSE Bl
+      free == { s \in Sq : r.b[s] = 0 \/ Col(r.b[s]) # c }
+      want == AttackMap(r.b, c) \cap free
+      got == SeqSet(r.att) \cap free IN
+  got = want \/ Bad("attack map differs from the union of the pieces' attack sets", [extra |-> got \ want, missing |-> want \ got])
+
 \* C12 on a board observed between a move and its undo inside generation / search (hook H5):
 \* representation invariant, and the redundant summaries agree with the squares
 CheckBoard(r) ==
@@ -175,6 +186,7 @@ Ok == lvl = 2 =>
         [] r.t = "mirror" -> CheckMirror(r)
         [] r.t = "attack" -> CheckAttack(r)
         [] r.t = "leaper" -> CheckLeaper(r)
+        [] r.t = "attackmap" -> CheckAttackMap(r)
         [] r.t = "board" -> CheckBoard(r)
         [] r.t = "matescore" -> CheckMateScore(r)
         [] r.t = "score" -> CheckScore(r)
